@@ -92,6 +92,7 @@ def build(config, eng):
         # inputs with the unsmoothed ones
         w = CellWorld(eng, [("cat", "a", 2, {"missing_at": (1,), "numeric_values": {1: 1, 2: 3}}),
                             ("catdate", "b", 3, {"missing_at": (0,)})], w_strict=True)
+        w.free_measure("mean", "x")
         return w.response(), {}, 0, 1
     if config == "mr_strand":
         w = CellWorld(eng, [("mr", "m", 3, {})], w_strict=True)
@@ -111,7 +112,7 @@ def scenario(eng, config="cat_x_mr", all_pairs=False, light=False):
 
     names = props_of(fresh_part(), smoothed=(config == "waves_smoothing"))
     if config == "waves_smoothing":
-        keep = ("column_proportions", "column_percentages", "column_index", "columns_scale_mean", "counts", "row_proportions", "table_proportions", "columns_margin", "column_std_err")
+        keep = ("column_proportions", "column_percentages", "column_index", "columns_scale_mean", "counts", "row_proportions", "table_proportions", "columns_margin", "column_std_err", "means")
         names = [p for p in names if p.startswith("smoothed") or p in keep]
     if config == "waves":
         names = [p for p in names if p in ("counts", "row_labels", "column_labels", "row_codes", "inserted_row_idxs", "rows_margin", "column_proportions", "shape", "payload_order")]
